@@ -3,7 +3,7 @@
 //! The REAL `slicec` binary (built from the tree under test; path in $VERIF_SLICEC_BIN) is run on a small Slice file with
 //! lists of generator programs (shell scripts in a scratch directory): well-behaved ones and every failure mode the
 //! property names -- cannot be started (missing / not executable), exits non-zero, killed by a signal, writes to stderr,
-//! replies with nothing, with every proper PREFIX of a valid reply, with undecodable bytes -- in every position of the list.
+//! closes its stdin early while the request is larger than a pipe buffer, replies with nothing, with every proper PREFIX of a valid reply, with undecodable bytes -- in every position of the list.
 //! Oracle, from the property's sentence:
 //!  * the compiler neither crashes nor hangs (30 s), exits non-zero exactly when some generator failed;
 //!  * each failed generator is named by an error on the diagnostic stream;
@@ -204,6 +204,40 @@ pub fn run() -> i32 {
             }
         }
         if let Some((want, got)) = problem { rep.counterexample(&label, &want, &got); }
+    }
+    // ---- a generator that closes its stdin early, with a request larger than a pipe buffer: either outcome (the write fails -> an error
+    //      naming it and nothing of its reply on disk; or the reply is honoured) is consistent with the property; a crash, a hang, or an
+    //      inconsistent mixture is not. The well-behaved generator next to it is honoured either way.
+    for position in 0..2usize {
+        let dir = root.join(format!("early{position}"));
+        fs::create_dir_all(dir.join("out/g1")).unwrap();
+        let mut big = String::from("module M\n");
+        for i in 0..4000 { big.push_str(&format!("struct VeryLongStructName{i} {{ fieldNumberOne: string, fieldNumberTwo: Sequence<int32> }}\n")); }
+        fs::write(dir.join("in.slice"), big).unwrap();
+        let early_files = vec![("early.txt".to_owned(), "EARLY\n".to_owned())];
+        fs::write(dir.join("reply.early"), enc_reply(&early_files)).unwrap();
+        let script = dir.join("gen_early.sh");
+        fs::write(&script, "#!/bin/sh\nexec 0<&-\nsleep 1\ncat reply.early\n").unwrap();
+        fs::set_permissions(&script, fs::Permissions::from_mode(0o755)).unwrap();
+        let good = write_script(&dir, &good1);
+        let mut args: Vec<String> = vec!["in.slice".into(), "--disable-color".into(), "-O".into(), "out".into()];
+        let order: Vec<String> = if position == 0 { vec!["./gen_early.sh".into(), format!("{good},lang=cs,v=1")] } else { vec![format!("{good},lang=cs,v=1"), "./gen_early.sh".into()] };
+        for g in order { args.push("-G".into()); args.push(g); }
+        let label = format!("a generator that closes stdin early (position {position}) next to good1, request > 64 KiB");
+        rep.case(true, || label.clone());
+        let o = run_slicec(&bin, &dir, &args);
+        if o.timed_out { rep.counterexample(&label, "the compiler finishes", "no exit within 30 s (hang)"); continue; }
+        let named = o.stderr.lines().any(|l| l.starts_with("error") && l.contains("'./gen_early.sh'"));
+        let written = dir.join("out/early.txt").exists();
+        match o.code {
+            None => rep.counterexample(&label, "an exit status", "killed by a signal"),
+            Some(101) => rep.counterexample(&label, "an error diagnostic, not a crash", &format!("PANIC: {}", o.stderr.chars().take(300).collect::<String>())),
+            Some(c) => {
+                if named == written { rep.counterexample(&label, "either an error naming the generator and nothing written from it, or its reply honoured", &format!("error reported: {named}, early.txt written: {written}")); }
+                else if (c != 0) != named { rep.counterexample(&label, "a non-zero exit status exactly when the generator is reported as failed", &format!("exit {c}, error reported: {named}")); }
+                else if !dir.join("ran.good1").exists() || fs::read_to_string(dir.join("out/g1/out.txt")).ok().as_deref() != Some("ONE\n") { rep.counterexample(&label, "the well-behaved generator still runs and is honoured", "its marker or file is missing"); }
+            }
+        }
     }
     let _ = fs::remove_dir_all(&root);
     rep.finish()
